@@ -15,7 +15,7 @@ from .scenarios import random_behaviour, tlc_behaviours
 
 
 def _n(chk, quick, thorough):
-    return thorough if chk.tier == "thorough" else quick
+    return min(thorough, 5 * quick) if chk.tier == "thorough" else quick   # thorough is capped at 5x quick: every tier must finish well inside its timeout on a shared machine
 
 
 def plot_event(s, schedule, req_xlim=0):
